@@ -1,10 +1,11 @@
 (* Property C11 - a node connected to a peer with a heavier valid chain catches up to it.
-   Statements only; proofs in Proofs/Sync.v.  The theorems are about the synchronisation logic at message
+   Statements only; proofs in Proofs/Sync.v and Proofs/Sync2*.v.  The theorems are about the synchronisation logic at message
    granularity (Model/Sync.v: scheduler, serving side, orphan queue, ordered post-processing over the node model).
    Goroutine interleavings, TCP, timers, race- and deadlock-freedom are explored by live runs (Check/C11.v), not proved. *)
 From Coq Require Import Permutation.
-From Virel Require Import Lib.Config Lib.U64 Lib.AMap Model.Ledger Model.Node Model.Sync
-  Proofs.NodeBasics Proofs.ForkChoice Proofs.Sync Gen.Params.
+From Virel Require Import Lib.Config Lib.U64 Lib.AMap Model.Ledger Model.Node Model.Sync Spec.Chain
+  Proofs.NodeBasics Proofs.ForkChoice Proofs.Sync Proofs.Sync2 Proofs.Sync2Refine Proofs.Sync2Main Proofs.Sync2Reach
+  Proofs.Sync2Stuck Proofs.Sync2Example Proofs.ChainInv Proofs.ChainHeights Gen.Params.
 Open Scope N_scope.
 
 (* ---- safety: whatever a peer sends ---- *)
@@ -118,12 +119,9 @@ Theorem C11_linear_premises_decidable : forall cfg genesis_addr n0 bs,
 Proof. exact linear_premises_sound. Qed.
 Print Assumptions C11_linear_premises_decidable.
 
-(* ---- across a fork: partial ---- *)
+(* ---- across a fork ---- *)
 (* In every execution, once the peer's tip block has been accepted into the store the node's tip is at least as heavy,
-   and if every other stored block is strictly lighter the node's tip is the peer's tip.
-   The FULL statement (Proofs/Sync.v, [sync_fork_full] : Prop - the request rounds do bring every block of the peer's
-   branch across a fork: orphan -> parent queued -> re-request after the wait counter expires) is stated and NOT proved;
-   catching up across forks of depth 1-5 is covered by live runs only. *)
+   and if every other stored block is strictly lighter the node's tip is the peer's tip. *)
 Theorem C11_sync_fork_partial : forall cfg genesis_addr team_key s es p pb,
   FInv (sy_node s) ->
   let n := sy_node (steps cfg genesis_addr team_key s es) in
@@ -132,3 +130,190 @@ Theorem C11_sync_fork_partial : forall cfg genesis_addr team_key s es p pb,
   ((forall h b, get_block n h = Some b -> h <> p -> b_cd b < b_cd pb) -> top n = p).
 Proof. exact sync_fork_partial. Qed.
 Print Assumptions C11_sync_fork_partial.
+
+(* The FULL statement as it was written down first (Proofs/Sync.v, [sync_fork_full] : Prop - whenever the node shares
+   an ancestor with a peer holding a valid heavier chain, the request rounds bring the peer's tip) is FALSE for the
+   synchronisation logic as implemented: Proofs/Sync2Stuck.v exhibits a pair of chains of the verification network on
+   which the fair schedule never stores another block. *)
+Theorem C11_sync_fork_full_refuted : ~ sync_fork_full cfg_verifnet 7 0.
+Proof. exact sync_fork_full_refuted. Qed.
+Print Assumptions C11_sync_fork_full_refuted.
+
+(* LIVELOCK 1 (two nodes, every request answered, nobody lies).  Our chain: genesis + 14 blocks with equal timestamps
+   (tip 1014, height 14, cumulative difficulty 145); peer: genesis + 75 blocks 15 s apart (tip 2075, height 75,
+   cumulative difficulty 155; 135 at height 65 = 14 + PARALLEL_BLOCKS_DOWNLOAD + 1).  In EVERY round of the schedule
+   "peer's STATS arrived - one Synchronize iteration - every request answered - buffer drained": our tip stays 1014 and
+   the peer's block of height 66 (hash 2066) is never stored.  From round 200 on the state repeats with period 22
+   ([k_period]); the request (height 15, count 50) is answered with 51 duplicates every 22 iterations.
+   Cause: the by-height request always restarts at OUR main-chain height (which an alternative chain does not move), so a
+   peer branch that becomes heavier than our chain only more than 51 blocks above our height is never fetched. *)
+Theorem C11_stuck_long_light_fork : forall j,
+  let s := srounds cfg_verifnet 7 0 k_P k_now j (sync0 k_B) in
+  top (sy_node s) = 1014 /\ top (sy_node s) <> top k_P /\ get_block (sy_node s) 2066 = None.
+Proof. exact stuck_long_light_fork. Qed.
+Print Assumptions C11_stuck_long_light_fork.
+
+(* LIVELOCK 2 (one false or outdated STATS packet).  Node: genesis + 5 blocks (tip 3005, cumulative difficulty 15); honest
+   peer: a fork from genesis of the same height 5, heavier (tip 4005, cumulative difficulty 17) - adopted within 5 rounds
+   from the fresh state ([k_control2]).  After a STATS packet (height 100, cumulative difficulty 1000) from a peer that
+   delivers nothing, in EVERY round: the tip stays 3005, no block is stored, the target stays (100, 1000). *)
+Theorem C11_stuck_stale_target : forall j,
+  let s := srounds cfg_verifnet 7 0 k_P2 k_now j k_stale in
+  top (sy_node s) = 3005 /\ length (blocks (sy_node s)) = 6%nat /\ sy_height s = 100 /\ sy_diff s = 1000.
+Proof. exact stuck_stale_target. Qed.
+Print Assumptions C11_stuck_stale_target.
+
+(* ---- across a fork: what IS true ---- *)
+(* The mechanism as a machine over heights (Proofs/Sync2.v): frontier L = lowest height of the peer's chain that is not
+   stored, the queue as the list of the heights of its entries, one round = one Synchronize iteration with all answers
+   processed lowest first.  If the by-height window always reaches the frontier ([th L] = our own height when the
+   frontier is L), the frontier passes the peer's height after finitely many rounds.
+   Termination measure (lexicographic): blocks of the peer's chain not yet stored; then, while no queue entry is at or
+   above the frontier, the iterations until the by-height part fires again (<= 42); otherwise (lowest such entry - L)
+   + number of entries below the frontier. *)
+Theorem C11_sync_machine_catches_up : forall hp pbd (th : N -> N), 1 <= pbd -> forall L0, 1 <= L0 ->
+  (forall L, L0 <= L -> L <= hp -> th L < hp -> L <= th L + pbd + 1) ->
+  forall a, AInv hp L0 a -> exists k, AInv hp L0 (a_iter hp pbd th k a) /\ hp < aL (a_iter hp pbd th k a).
+Proof. exact a_catches_up. Qed.
+Print Assumptions C11_sync_machine_catches_up.
+
+(* Catching up across a fork.  Peer: any state with the chain structure (every reachable state, C10/C17); our node: any
+   state with the fork-choice invariant (every reachable state, C04).  The peer's main chain is [shared ++ theirs]: we
+   store [shared] (at least genesis) and nothing of [theirs].
+   Premises about the peer's branch (all executable on concrete chains):
+     - our node accepts the blocks of [theirs] one after another, lowest first (AddBlock succeeds, including the
+       reorganisation): the branch is valid FROM OUR NODE'S POINT OF VIEW;
+     - until the last block of [theirs] is in, our tip is lighter than the peer's announcement;
+     - REACH: as long as our own height is below the peer's, the lowest block of [theirs] we do not store is at most
+       PARALLEL_BLOCKS_DOWNLOAD + 1 above our own height (false in livelock 1);
+   about the synchronisation state: empty download queue and buffer, and the best announcement heard so far is at most
+   the peer's (false in livelock 2); the counters n / forkWait / SyncLastRequestHeight are arbitrary.
+   Schedule (fairness): rounds keep being scheduled; in every round the peer's STATS have arrived, Synchronize runs one
+   iteration, the peer answers every request of it, the answers arrive - in the order sent ([srounds]) or in any order
+   ([prounds]) - and the post-processor drains its buffer.
+   Then there is a number of rounds after which, for every clock reading at which the peer's blocks (other than genesis)
+   pass prevalidation: the node is exactly the node that received [theirs] block by block, its store holds every block of
+   the peer's main chain, its tip is the peer's tip, further rounds change nothing; and [sim] ends with the peer's tip. *)
+Theorem C11_sync_fork_catches_up : forall cfg genesis_addr team_key gh peer n0 shared theirs,
+  chain_structure gh peer -> FInv n0 ->
+  main_chain peer = shared ++ theirs -> shared <> [] -> theirs <> [] ->
+  (forall b, In b (shared ++ theirs) -> b_hash b <> 0) ->
+  (forall b, In b shared -> get_block n0 (b_hash b) = Some b) ->
+  (forall b, In b theirs -> get_block n0 (b_hash b) = None) ->
+  acc_chain cfg genesis_addr n0 theirs ->
+  (forall j, (j < length theirs)%nat -> top_cd (apply_ext cfg genesis_addr n0 (firstn j theirs)) < top_cd peer) ->
+  top_h peer + parallel_blocks cfg + 2 < two64 -> 1 <= parallel_blocks cfg ->
+  (forall j, (j < length theirs)%nat ->
+     let n := apply_ext cfg genesis_addr n0 (firstn j theirs) in
+     top_h n < top_h peer -> N.of_nat (length shared + j) <= top_h n + parallel_blocks cfg + 1) ->
+  forall s, sy_node s = n0 -> sy_queue s = [] -> sy_buf s = [] ->
+  (sy_diff s < top_cd peer \/ (sy_diff s = top_cd peer /\ sy_height s = top_h peer)) ->
+  exists bound, forall now, (forall b, In b (tl (shared ++ theirs)) -> prevalidate_block cfg team_key b now = Ok tt) ->
+    (forall k, (bound <= k)%nat ->
+       let s' := srounds cfg genesis_addr team_key peer now k s in
+       sy_node s' = apply_ext cfg genesis_addr n0 theirs /\
+       (forall b, In b (main_chain peer) -> get_block (sy_node s') (b_hash b) = Some b) /\
+       top (sy_node s') = top peer /\ sy_buf s' = [] /\
+       srounds cfg genesis_addr team_key peer now (S k) s = s') /\
+    (forall m s', (bound <= m)%nat -> prounds cfg genesis_addr team_key peer now m s s' ->
+       sy_node s' = apply_ext cfg genesis_addr n0 theirs /\
+       (forall b, In b (main_chain peer) -> get_block (sy_node s') (b_hash b) = Some b) /\
+       top (sy_node s') = top peer /\ sy_buf s' = []) /\
+    (forall fuel, (bound <= fuel)%nat ->
+       top (sy_node (fst (sim cfg genesis_addr team_key fuel peer s [] now))) = top peer).
+Proof. exact sync_fork_catches_up. Qed.
+Print Assumptions C11_sync_fork_catches_up.
+
+(* The same with the premise REACH stated on the two chains.  Our node satisfies the chain invariants of every reachable
+   state (C10/C17 structure, C04 fork choice, tip height = height of the tip block); while it accepts the peer's branch its
+   tip is its own old tip or the last block accepted, so REACH follows from
+     REACH'  if the peer's main chain has a block at height (our height + PARALLEL_BLOCKS_DOWNLOAD + 1), that block is
+             heavier than our tip.
+   Nothing to check when the peer's chain is at most PARALLEL_BLOCKS_DOWNLOAD + 1 blocks higher than ours (in particular
+   when it is heavier but not higher).  Livelock 1 is a pair of chains on which REACH' fails (135 <= 145 at height 65). *)
+Theorem C11_sync_fork_catches_up_chains : forall cfg genesis_addr team_key gh peer n0 shared theirs,
+  chain_structure gh peer -> CInv gh n0 /\ FInv n0 /\ HInv n0 ->
+  N.of_nat (length (blocks n0) + length theirs) <= two64 ->
+  main_chain peer = shared ++ theirs -> shared <> [] -> theirs <> [] ->
+  (forall b, In b (shared ++ theirs) -> b_hash b <> 0) ->
+  (forall b, In b shared -> get_block n0 (b_hash b) = Some b) ->
+  (forall b, In b theirs -> get_block n0 (b_hash b) = None) ->
+  acc_chain cfg genesis_addr n0 theirs ->
+  (forall j, (j < length theirs)%nat -> top_cd (apply_ext cfg genesis_addr n0 (firstn j theirs)) < top_cd peer) ->
+  top_h peer + parallel_blocks cfg + 2 < two64 -> 1 <= parallel_blocks cfg ->
+  (forall o, nth_error (shared ++ theirs) (N.to_nat (top_h n0 + parallel_blocks cfg + 1)) = Some o -> top_cd n0 < b_cd o) ->
+  forall s, sy_node s = n0 -> sy_queue s = [] -> sy_buf s = [] ->
+  (sy_diff s < top_cd peer \/ (sy_diff s = top_cd peer /\ sy_height s = top_h peer)) ->
+  exists bound, forall now, (forall b, In b (tl (shared ++ theirs)) -> prevalidate_block cfg team_key b now = Ok tt) ->
+    (forall k, (bound <= k)%nat ->
+       let s' := srounds cfg genesis_addr team_key peer now k s in
+       sy_node s' = apply_ext cfg genesis_addr n0 theirs /\
+       (forall b, In b (main_chain peer) -> get_block (sy_node s') (b_hash b) = Some b) /\
+       top (sy_node s') = top peer /\ sy_buf s' = [] /\
+       srounds cfg genesis_addr team_key peer now (S k) s = s') /\
+    (forall m s', (bound <= m)%nat -> prounds cfg genesis_addr team_key peer now m s s' ->
+       sy_node s' = apply_ext cfg genesis_addr n0 theirs /\
+       (forall b, In b (main_chain peer) -> get_block (sy_node s') (b_hash b) = Some b) /\
+       top (sy_node s') = top peer /\ sy_buf s' = []) /\
+    (forall fuel, (bound <= fuel)%nat ->
+       top (sy_node (fst (sim cfg genesis_addr team_key fuel peer s [] now))) = top peer).
+Proof. exact sync_fork_catches_up_chains. Qed.
+Print Assumptions C11_sync_fork_catches_up_chains.
+
+(* the schedule of the theorems above in terms of the events of the synchronisation machine: one round is the event
+   sequence  STATS(peer's tip) - Synchronize iteration - one BLOCK packet per block the peer answers with - post-processor
+   steps until the buffer is empty *)
+Theorem C11_sync_round_events : forall cfg genesis_addr team_key peer now s,
+  let s0 := recv_stats s (top_h peer) (top_cd peer) in
+  let arr := map (fun b => (b, now)) (flat_map (serve cfg peer) (snd (tick cfg s0))) in
+  sround cfg genesis_addr team_key peer now s =
+  steps cfg genesis_addr team_key s
+    (EvStats (top_h peer) (top_cd peer) :: EvTick :: map (fun bn => EvBlock (fst bn) (snd bn)) arr ++
+     repeat EvPost (length (sy_buf (recv_all cfg team_key (fst (tick cfg s0)) arr)))).
+Proof. exact sround_events. Qed.
+Print Assumptions C11_sync_round_events.
+
+(* the executable form of the acceptance premise *)
+Theorem C11_acc_chain_decidable : forall cfg genesis_addr bs n,
+  acc_chain_b cfg genesis_addr n bs = true -> acc_chain cfg genesis_addr n bs.
+Proof. exact acc_chain_b_sound. Qed.
+Print Assumptions C11_acc_chain_decidable.
+
+(* non-vacuity: two forks of the verification network on which every premise holds by evaluation.
+   (1) peer higher: our 10 blocks (cumulative difficulty 53) against the peer's 40 (85), fork at genesis, the peer's
+   branch overtakes at height 25; (2) peer heavier but not higher: our 100 blocks against the peer's 70, fork at genesis,
+   deeper than the 50 blocks the "heavier but not higher" request covers. *)
+Theorem C11_fork_example_higher_peer :
+  (top_h (k_feed e_ours1), top_cd (k_feed e_ours1), top_h (k_feed e_theirs1), top_cd (k_feed e_theirs1)) = (10, 53, 40, 85) /\
+  exists bound, forall k, (bound <= k)%nat ->
+    let s' := srounds cfg_verifnet 7 0 (k_feed e_theirs1) k_now k (sync0 (k_feed e_ours1)) in
+    sy_node s' = apply_ext cfg_verifnet 7 (k_feed e_ours1) e_theirs1 /\
+    (forall b, In b (k_genesis :: e_theirs1) -> get_block (sy_node s') (b_hash b) = Some b) /\
+    top (sy_node s') = top (k_feed e_theirs1).
+Proof. exact example_higher_peer. Qed.
+Print Assumptions C11_fork_example_higher_peer.
+
+Theorem C11_fork_example_deep_fork :
+  (top_h (k_feed e_ours2), top_h (k_feed e_theirs2)) = (100, 70) /\ top_cd (k_feed e_ours2) < top_cd (k_feed e_theirs2) /\
+  exists bound, forall k, (bound <= k)%nat ->
+    let s' := srounds cfg_verifnet 7 0 (k_feed e_theirs2) k_now k (sync0 (k_feed e_ours2)) in
+    sy_node s' = apply_ext cfg_verifnet 7 (k_feed e_ours2) e_theirs2 /\
+    (forall b, In b (k_genesis :: e_theirs2) -> get_block (sy_node s') (b_hash b) = Some b) /\
+    top (sy_node s') = top (k_feed e_theirs2).
+Proof. exact example_deep_fork. Qed.
+Print Assumptions C11_fork_example_deep_fork.
+
+(* (3) the control of livelock 1, through the chain-level premise REACH': our node holds only the first 13 of its 14 blocks
+   (cumulative difficulty 112); the peer's block of height 13 + 51 = 64 has cumulative difficulty 133 > 112; the node
+   catches up with the peer's 75 blocks.  (On the Go implementation: reached the peer's tip in 27 s, while the 14-block
+   node had not moved after 150 s - header of Proofs/Sync2Stuck.v.) *)
+Theorem C11_fork_example_long_fork_control :
+  (top_h (k_feed e_ours3), top_cd (k_feed e_ours3)) = (13, 112) /\
+  map b_cd (firstn 1 (skipn 63 k_theirs)) = [133] /\
+  exists bound, forall k, (bound <= k)%nat ->
+    let s' := srounds cfg_verifnet 7 0 (k_feed k_theirs) k_now k (sync0 (k_feed e_ours3)) in
+    sy_node s' = apply_ext cfg_verifnet 7 (k_feed e_ours3) k_theirs /\
+    (forall b, In b (k_genesis :: k_theirs) -> get_block (sy_node s') (b_hash b) = Some b) /\
+    top (sy_node s') = top (k_feed k_theirs).
+Proof. exact example_long_fork_control. Qed.
+Print Assumptions C11_fork_example_long_fork_control.
